@@ -38,6 +38,9 @@ pub struct Ctx {
     /// variations for the metamorphic cookie relation
     pub salt: u8,
     pub key2: [u64; 2],
+    /// source endpoint = destination endpoint (same address, same port)
+    #[serde(default)]
+    pub self_addressed: bool,
 }
 
 pub fn ctx_strategy() -> impl Strategy<Value = Ctx> {
@@ -50,9 +53,19 @@ pub fn ctx_strategy() -> impl Strategy<Value = Ctx> {
         prop_oneof![3 => Just(0u8), 1 => 1u8..=10],
         prop_oneof![2 => Just(Hist::None), 1 => (1u8..4).prop_map(Hist::OtherFlows), 1 => any::<u32>().prop_map(Hist::EarlierSyn), 1 => Just(Hist::Validated)],
         any::<u8>(),
-        any::<[u64; 2]>(),
+        (any::<[u64; 2]>(), prop::bool::weighted(0.06)),
     )
-        .prop_map(|(scn, sport, dport, seq, payload, opt_words, hist, salt, key2)| Ctx { scn, sport, dport, seq, payload, opt_words, hist, salt, key2 })
+        .prop_map(|(mut scn, mut sport, dport, seq, payload, opt_words, hist, salt, (key2, self_addressed))| {
+            if self_addressed {
+                scn.net.cip = scn.net.sip;
+                sport = dport;
+                if let Some(d) = &mut scn.cfg.deny {
+                    let c = scn.net.cip;
+                    d.retain(|a| *a != c);
+                }
+            }
+            Ctx { scn, sport, dport, seq, payload, opt_words, hist, salt, key2, self_addressed }
+        })
 }
 
 pub fn syn_accepted(flags: u16) -> bool {
@@ -112,6 +125,9 @@ pub fn check(c: &Ctx, st: &mut Stats) -> Check {
     st.class(if c.payload.is_empty() { "payload:none" } else { "payload:present" });
     st.class(if c.opt_words == 0 { "doff:5" } else { "doff:>5" });
     st.class(if net.is_v4() { "ip:v4" } else { "ip:v6" });
+    if c.self_addressed {
+        st.class("self-addressed-tuple");
+    }
     // all 512 flag values
     let mut cookie: Option<u32> = None;
     for flags in 0u16..512 {
@@ -162,7 +178,7 @@ pub fn check(c: &Ctx, st: &mut Stats) -> Check {
     st.frames(2);
     // (b) sensitivity: change exactly one of (sip, dip, sport, dport, key); on equality retry
     // with two further values (a coincidence has probability 2^-32 per comparison)
-    for what in 0..5 {
+    for what in 0..7 {
         let mut equal = 0;
         for attempt in 0..3u8 {
             let salt = c.salt.wrapping_add(attempt.wrapping_mul(83));
@@ -185,14 +201,16 @@ pub fn check(c: &Ctx, st: &mut Stats) -> Check {
                 }
                 2 => sp = c.sport.wrapping_add(1 + salt as u16),
                 3 => dp = c.dport.wrapping_add(1 + salt as u16),
-                _ => cfg2.key = [c.key2[0].wrapping_add(attempt as u64), c.key2[1] ^ cfg.key[1].rotate_left(attempt as u32 + 1)],
+                4 => cfg2.key = [c.key2[0].wrapping_add(attempt as u64), c.key2[1] ^ cfg.key[1].rotate_left(attempt as u32 + 1)],
+                5 => cfg2.key = [cfg.key[0] ^ (c.key2[0] | 1).rotate_left(attempt as u32), cfg.key[1]],
+                _ => cfg2.key = [cfg.key[0], cfg.key[1] ^ (c.key2[1] | 1).rotate_left(attempt as u32)],
             }
             if what == 0 {
                 if let Some(dl) = &mut cfg2.deny {
                     dl.retain(|a| *a != n.cip);
                 }
             }
-            if cfg2.key == cfg.key && what == 4 {
+            if cfg2.key == cfg.key && what >= 4 {
                 continue;
             }
             let s2 = Sut::new(&cfg2);
@@ -204,7 +222,7 @@ pub fn check(c: &Ctx, st: &mut Stats) -> Check {
                 Some(_) => break,
             }
         }
-        vensure!(equal < 3, "cookie does not depend on {}: three different values gave the same SYN-ACK sequence number {:#x}", ["the source IP address", "the destination IP address", "the source port", "the destination port", "the key"][what], cookie);
+        vensure!(equal < 3, "cookie does not depend on {}: three different values gave the same SYN-ACK sequence number {:#x}", ["the source IP address", "the destination IP address", "the source port", "the destination port", "the key", "the first half of the key", "the second half of the key"][what], cookie);
     }
     st.sample(|| json!({"tuple": format!("{}:{} -> {}:{}", net.cip, c.sport, net.sip, c.dport), "seq": c.seq, "cookie": cookie, "history": c.hist, "payload_len": c.payload.len()}));
     Ok(())
